@@ -10,6 +10,8 @@ let () =
     | "lp" -> Lp_cmd.run_case
     | "limits" -> Limits_cmd.run_case_full
     | "lpjudge" -> Lp_cmd.judge
+    | "gac" -> Gac_cmd.run_case
+    | "gacspec" -> Gac_cmd.run_spec
     | _ -> prerr_endline ("unknown sub-command " ^ sub); exit 2 in
   (try
      while true do
